@@ -57,8 +57,9 @@ def _compute_relative_volume_difference(
     Returns:
         float: Relative volume Error between the two binary masks. A value of zero means perfect volume match, while >0 means oversegmentation and <0 undersegmentation.
     """
-    reference_mask = float(np.sum(reference))
-    prediction_mask = float(np.sum(prediction))
+    # count voxels exactly: np.sum of a float32/float16 mask accumulates in that dtype
+    reference_mask = float(np.count_nonzero(reference))
+    prediction_mask = float(np.count_nonzero(prediction))
 
     # Handle division by zero
     if reference_mask == 0 and prediction_mask == 0:
